@@ -88,8 +88,17 @@ def firstBlocked (pc : Nat → Pc) : Nat → Nat → Option Nat
   | 0, _ => none
   | k + 1, i => if pc i = .blocked then some i else firstBlocked pc k (i + 1)
 
+/-- schedule flag `~` on a thread parked in the futex: `futex_wait` returns -1/EINTR although
+nobody woke it (signal without SA_RESTART). `synclock.c` ignores the result of `muggle_sync_wait`:
+`expected` is reset to UNLOCK and the compare-exchange is retried — the same as after a wake-up. -/
+def isInterrupt (s : St) (tok : Tok) : Bool :=
+  tok.flag == .wake && decide (tok.tid < s.n) && (s.pc tok.tid == .blocked)
+
 def step (s : St) (tok : Tok) : Option (St × List String) :=
   let t := tok.tid
+  if isInterrupt s tok then
+    some ({ s with pc := upd s.pc t .acq }, [s!"T{t} futex-resume lock spurious"])
+  else
   if !s.enabled t then none else
   match s.pc t with
   | .acq =>
